@@ -104,6 +104,23 @@ func ruleE10(c *Ctx) {
 		}
 		c.check(derives, "E10", "TraverseAST[DeclareStmt]|stores evaluated body", c.L.Pos(define.Pos()), "the stored value must be the *evaluated* body (result of TraverseAST(n.Value)); storing the raw tree would re-bind `$` and break precedence at use sites")
 	}
+	// (b2) on SSA: the stored value is the TraverseAST result itself on every path (no re-wrapping)
+	if tf := c.L.SSAFunc("internal/pass1", "TraverseAST"); tf != nil {
+		found := false
+		callsIn(tf, func(ci ssa.CallInstruction) {
+			if !strings.HasSuffix(calleeName(ci.Common()), ".DefineMacro") && !(ci.Common().IsInvoke() && ci.Common().Method.Name() == "DefineMacro") {
+				return
+			}
+			found = true
+			args := ci.Common().Args
+			v := args[len(args)-1]
+			c.check(fromTraverse(v, tf), "E10", "TraverseAST[DeclareStmt]|stored value is the evaluation result itself", c.L.Pos(instrPos(ci)),
+				"the value handed to DefineMacro is not (on every path) the result of TraverseAST(n.Value): the definition is re-wrapped or narrowed, so a name and its inlined body can differ")
+		})
+		if !found {
+			c.anchorMissing("E10", "TraverseAST: DefineMacro call (SSA)")
+		}
+	}
 	// (c) DefineMacro / LookupMacro use the exact key
 	for _, m := range []string{"(*Pass1).DefineMacro", "(*Pass1).LookupMacro"} {
 		mfd, mp := c.L.FuncDecl("internal/pass1", m)
